@@ -395,9 +395,9 @@ class Explorer:
                 except Undecidable:
                     return TOP
                 vals = set(o.ret for o in outs)
-                if len(vals) == 1:
+                if len(vals) == 1 and ground(next(iter(vals))):
                     return vals.pop()
-            return TOP
+            return sym('const:' + k['unev'])
         if 'param' in k and k['param'] in self.const_params:
             return I(self.const_params[k['param']])
         if k.get('zst') and k['ty'] == '()':
